@@ -377,6 +377,17 @@ class Impl:
         if op == 'ravel':
             import ravel_impl
             return ravel_impl.run(s)
+        if op == 'c17pair':
+            import sched_impl
+            a, b = str(s[1]), str(s[2])
+            k = sched_impl.count_callbacks(a)
+            outcome = 'completes'
+            for park in sorted({0, k // 2, max(k - 1, 0)}):
+                st, _ = sched_impl.run_pair(a, b, park)
+                if st != 'completes':
+                    outcome = 'deadlock' if st == 'deadlock' else 'crash'
+                    break
+            return [A(outcome)]
         if op in ('c16loop', 'c16walk'):
             import mem_impl
             # in a forked child: an invalid memory access kills the child, not the runner
